@@ -271,6 +271,10 @@ def run(ctx, selftest=False):
     ctx.sample(traces[0]); ctx.sample([t for t in traces if t["kind"] == "lnprior"][0]); ctx.sample([t for t in traces if t["kind"] == "sigmak"][0])
     verdicts = ctx.validate("PriorTrace", traces)
     ctx.judge(traces, verdicts)
+    # prior.sample under every short HISTORY of calls on one prior object (spec/History.tla): the draws and the ln_prior column of a
+    # call may not depend on which other combinations of generate_linear / return_logprobs were asked for before
+    from .. import history
+    history.check(ctx, "prior", {"C09"}, ("C09.", "H."), selftest=selftest, cap=24 if ctx.tier == "quick" else None)
     if selftest or not quick:
         import copy
         a = copy.deepcopy([t for t in traces if t["kind"] == "loguniform" and not t["raised"]][0]); a["id"] = "st-1"
